@@ -5,7 +5,9 @@ import hashlib, json, os, subprocess, sys, time, shutil
 
 VERIF = os.path.dirname(os.path.dirname(os.path.dirname(os.path.abspath(__file__))))
 REPO = os.environ.get("VERIF_REPO", "/repo")
-CACHE = os.path.join(VERIF, ".cache")
+MAIN_CACHE = os.path.join(VERIF, ".cache")
+# scratch runs (mutation batteries) point VERIF_CACHE_DIR at their own temporary directory so that thousands of one-off trees do not pile up
+CACHE = os.environ.get("VERIF_CACHE_DIR") or MAIN_CACHE
 DRIVER = os.path.join(VERIF, "engines/mirfacts/target/release/mirfacts")
 EXTRACT = os.path.join(VERIF, "bin/extract.sh")
 
@@ -79,7 +81,8 @@ def _gc(keep=40, min_age=1800):
     """drop old cache entries; never entries younger than min_age seconds (parallel runs)"""
     try:
         now = time.time()
-        ents = [os.path.join(CACHE, e) for e in os.listdir(CACHE)]
+        import re as _re
+        ents = [os.path.join(CACHE, e) for e in os.listdir(CACHE) if _re.match(r"^([0-9a-f]{16,}-\w+|canary-[0-9a-f]+)(\.tmp\d+)?$", e)]
         ents = [e for e in ents if os.path.isdir(e)]
         ents.sort(key=lambda e: os.stat(e).st_mtime, reverse=True)
         for e in ents[keep:]:
